@@ -2,9 +2,16 @@ package c02
 
 import (
 	"fmt"
+	"os"
+	"path/filepath"
+	"reflect"
+	"regexp"
+	"runtime"
+	"strings"
 	"testing"
 
 	"gonum.org/v1/gonum/blas"
+	"gonum.org/v1/gonum/lapack/gonum"
 	"verifharness/vk"
 )
 
@@ -12,12 +19,57 @@ import (
 //
 // The lwork modes of the other sub-checks use the lengths the routines actually
 // require. Where the doc comment states a different (smaller in some shapes)
-// minimum, the documented value is tried here on a shape where the two differ.
+// minimum, the documented value (read from the doc comment in the source tree
+// the binary was built from) is tried here on shapes where the two differ.
 
 type docminCase struct {
 	Routine string
 	Right   bool
 	M, N    int
+}
+
+// documentedLeft returns the dimension letters ("m" or "n") that the doc
+// comment of the routine names as the minimum work length for side == Left,
+// read from the source file the test binary was built from (every statement
+// found is tried; Dormqr used to contain two contradictory ones).
+func documentedLeft(routine string) []string {
+	var pc uintptr
+	switch routine {
+	case "Dlarf":
+		pc = reflect.ValueOf(gonum.Implementation.Dlarf).Pointer()
+	case "Dormlq":
+		pc = reflect.ValueOf(gonum.Implementation.Dormlq).Pointer()
+	case "Dormqr":
+		pc = reflect.ValueOf(gonum.Implementation.Dormqr).Pointer()
+	}
+	f := runtime.FuncForPC(pc)
+	if f == nil {
+		return nil
+	}
+	file, _ := f.FileLine(f.Entry())
+	file = filepath.Join(filepath.Dir(file), strings.ToLower(routine)+".go")
+	src, err := os.ReadFile(file)
+	if err != nil {
+		return nil
+	}
+	end := strings.Index(string(src), "\nfunc (impl Implementation) "+routine+"(")
+	if end < 0 {
+		return nil
+	}
+	doc := string(src[:end])
+	doc = doc[strings.LastIndex(doc, "\n\n")+1:]
+	doc = strings.Join(strings.Fields(strings.ReplaceAll(doc, "//", " ")), " ")
+	var out []string
+	for _, re := range []*regexp.Regexp{
+		regexp.MustCompile(`length at least ([mn]) if side == blas\.Left`),
+		regexp.MustCompile(`lwork >= ([mn]) if side == blas\.Left`),
+		regexp.MustCompile(`lwork must be at least ([mn]) if side == blas\.Left`),
+	} {
+		for _, mt := range re.FindAllStringSubmatch(doc, -1) {
+			out = append(out, mt[1])
+		}
+	}
+	return out
 }
 
 func checkDocmin(c docminCase) *vk.Failure {
@@ -28,60 +80,57 @@ func checkDocmin(c docminCase) *vk.Failure {
 	if c.Right {
 		side = blas.Right
 	}
-	r := vk.NewSplitMix(uint64(m*31 + n))
-	cm := genGeneral(clsGauss, m, n, r)
-	pc := newPmat("c", m, n, n, 1, 1, true)
-	pc.load(cm)
+	letters := documentedLeft(c.Routine)
+	if len(letters) == 0 {
+		vk.Inconclusive("docmin: doc comment of " + c.Routine + " not found or not understood")
+		return nil
+	}
 	nq := m
 	if c.Right {
 		nq = n
 	}
-	switch c.Routine {
-	case "Dlarf":
-		// "work must have length at least m if side == blas.Left and at least n if side == blas.Right."
-		lw := m
-		if c.Right {
-			lw = n
+	for _, letter := range letters {
+		// documented length for this side: the comment gives the letter for Left
+		// and the other one for Right
+		lw := n
+		if (letter == "m") != c.Right {
+			lw = m
 		}
-		v := make([]float64, nq)
-		for i := range v {
-			v[i] = r.Norm()
-		}
+		r := vk.NewSplitMix(uint64(m*31 + n))
+		cm := genGeneral(clsGauss, m, n, r)
+		pc := newPmat("c", m, n, n, 1, 1, true)
+		pc.load(cm)
 		work := make([]float64, lw)
-		if fl := vk.MustReturn("Dlarf-documented-work-length-rejected", func() { impl.Dlarf(side, m, n, v, 1, 0.5, pc.sl(), n, work) }); fl != nil {
-			fl.Msg = fmt.Sprintf("Dlarf(side=%c,m=%d,n=%d) with len(work)=%d as documented: %s", side, m, n, lw, fl.Msg)
+		var fl *vk.Failure
+		switch c.Routine {
+		case "Dlarf":
+			v := make([]float64, nq)
+			for i := range v {
+				v[i] = r.Norm()
+			}
+			fl = vk.MustReturn("Dlarf-documented-work-length-rejected", func() { impl.Dlarf(side, m, n, v, 1, 0.5, pc.sl(), n, work) })
+		case "Dormlq":
+			a := make([]float64, nq) // k x nq, k = 1
+			a[0] = 1
+			fl = vk.MustReturn("Dormlq-documented-lwork-rejected", func() {
+				impl.Dormlq(side, blas.NoTrans, m, n, 1, a, nq, []float64{0.5}, pc.sl(), n, work, lw)
+			})
+		case "Dormqr":
+			a := make([]float64, nq) // nq x k, k = 1
+			a[0] = 1
+			fl = vk.MustReturn("Dormqr-documented-lwork-rejected", func() {
+				impl.Dormqr(side, blas.NoTrans, m, n, 1, a, 1, []float64{0.5}, pc.sl(), n, work, lw)
+			})
+		}
+		if fl != nil {
+			fl.Msg = fmt.Sprintf("%s(side=%c,m=%d,n=%d) with work length %d, which the doc comment states as sufficient (\"%s\" for side == Left): %s", c.Routine, side, m, n, lw, letter, fl.Msg)
 			return fl
 		}
-	case "Dormlq", "Dormqr":
-		// Dormlq: "At minimum, lwork >= m if side == blas.Left and lwork >= n if side == blas.Right".
-		// Dormqr repeats that sentence (after stating the opposite one paragraph earlier).
-		lw := m
-		if c.Right {
-			lw = n
-		}
-		k := 1
-		tau := []float64{0.5}
-		work := make([]float64, lw)
-		var a []float64
-		var lda int
-		key := c.Routine + "-documented-lwork-rejected"
-		if c.Routine == "Dormlq" {
-			a, lda = make([]float64, nq), nq // k x nq
-			a[0] = 1
-			if fl := vk.MustReturn(key, func() { impl.Dormlq(side, blas.NoTrans, m, n, k, a, lda, tau, pc.sl(), n, work, lw) }); fl != nil {
-				fl.Msg = fmt.Sprintf("Dormlq(side=%c,m=%d,n=%d,k=1) with lwork=%d as documented: %s", side, m, n, lw, fl.Msg)
-				return fl
-			}
-		} else {
-			a, lda = make([]float64, nq), 1 // nq x k
-			a[0] = 1
-			if fl := vk.MustReturn(key, func() { impl.Dormqr(side, blas.NoTrans, m, n, k, a, lda, tau, pc.sl(), n, work, lw) }); fl != nil {
-				fl.Msg = fmt.Sprintf("Dormqr(side=%c,m=%d,n=%d,k=1) with lwork=%d as documented: %s", side, m, n, lw, fl.Msg)
-				return fl
-			}
+		if fl := pc.checkPad(c.Routine); fl != nil {
+			return fl
 		}
 	}
-	return pc.checkPad(c.Routine)
+	return nil
 }
 
 func TestDocmin(t *testing.T) {
